@@ -45,6 +45,7 @@ type Workload struct {
 	GMP     int     `json:"gomaxprocs"`
 	Warm    bool    `json:"warm"`     // read every row once before the clients start (fills caches)
 	ColKeys bool    `json:"col_keys"` // api level: index with column keys
+	Rank    bool    `json:"rank,omitempty"` // race mode: TopN by rank against imports / recalculations
 	RowKeys bool    `json:"row_keys"` // api level: fields with row keys; the workload's clients make the FIRST use of the keys
 	Reps    int     `json:"reps,omitempty"`
 	Corrupt bool    `json:"corrupt,omitempty"` // binding self-test: falsify one recorded result
@@ -236,6 +237,49 @@ func GenerateKeyed(seed int64, idx int) *Workload {
 			}
 			if o.Path == "roaring" {
 				o.Path = "bulk"
+			}
+			ops = append(ops, o)
+		}
+		w.Procs = append(w.Procs, ops)
+	}
+	return w
+}
+
+// GenerateRank builds a race workload around the rank cache of one fragment: readers ask for
+// TopN by rank (no ids) and TopN with a source row, over and over, while writers import into
+// the same shard (bulk and roaring, set and clear), recalculate and flush the cache and move
+// the counts of further rows (Noise), so that the ranking holds >= 3 rows whose order changes
+// and is rebuilt all the time. The answers are judged by the race detector and structurally
+// (no row twice, counts non-increasing); the ranking itself may legitimately lag behind the
+// writes (rankCache.invalidate is throttled), so there is no sequential value to compare with.
+func GenerateRank(seed int64, level string, idx int) *Workload {
+	rng := rand.New(rand.NewSource(seed*1000003 + int64(idx)*7919 + 990001))
+	w := &Workload{Idx: idx, Seed: seed, Mode: "race", Level: level, Rank: true, Cache: "ranked", NF: 1}
+	w.Profile = rng.Intn(len(colProfiles) * len(rowProfiles))
+	w.GMP = []int{2, 4, 8}[rng.Intn(3)]
+	w.Warm = true
+	w.Init = [][]int{codeSubset(rng, true), {}}
+	ng := 4 + rng.Intn(3)
+	for g := 0; g < ng; g++ {
+		var ops []Op
+		for k := 0; k < 25; k++ {
+			o := Op{F: 0, R: -1, C: -1, S: []int{}, Pre: rng.Intn(2)}
+			if g%2 == 0 {
+				o.Op, o.R, o.C = "Extra", rng.Intn(nRows), rng.Intn(nCols)
+				o.Path = []string{"topn", "topnsrc"}[rng.Intn(2)]
+			} else {
+				switch x := rng.Intn(10); {
+				case x < 3:
+					o.Op, o.S, o.Path = "ImportSet", codeSubset(rng, true), []string{"bulk", "roaring"}[rng.Intn(2)]
+				case x < 5:
+					o.Op, o.S, o.Path = "ImportClear", codeSubset(rng, true), []string{"bulk", "roaring"}[rng.Intn(2)]
+				case x < 7:
+					o.Op = "Recalculate"
+				case x < 8:
+					o.Op = "FlushCache"
+				default:
+					o.Op = "Noise"
+				}
 			}
 			ops = append(ops, o)
 		}
